@@ -108,3 +108,47 @@ Proof.
   intros re Hv e st Hp Hc. apply (pattern_vm_follows_reference re e st Hp); auto.
   eapply parse_wfe; eauto.
 Qed.
+
+(* ---------- ... and up through the API layer: Regex::new(pattern)?.find_iter(text) ---------- *)
+From FR Require Import KeepOut Api ApiProofs ApiVm.
+
+(* a parsed, VM-compiled pattern is inside [VmScope] *)
+Lemma pattern_vm_scope re e st p n cs :
+  valid_text re -> parse re = POk (e, st) -> condok true e -> kok true e ->
+  regex_new (bs_of st) e = inr (RFancy p n) ->
+  valid_chars cs -> (N.of_nat (length (concat cs)) < usize_max)%N ->
+  VmScope cs (bs_of st) e p.
+Proof.
+  intros Hv Hp Hc Hk Hn W Hl.
+  destruct (parse_tree_ok re e st Hp) as (Hr & Hz & Hlz). pose proof (parse_wfe re e st Hv Hp) as Hw.
+  unfold regex_new in Hn. destruct (acheck 0 (wrap e)) eqn:Ea; [discriminate|].
+  destruct (hard (bs_of st) 1 e); [|discriminate].
+  destruct (compile (bs_of st) (wrap e)) as [er|p0] eqn:Ec; [discriminate|]. inversion Hn; subst p0 n. clear Hn.
+  split; [exact W|]. split; [exact Hl|]. split; [exact Ec|]. split; [|split; [|exact Hk]].
+  - split; [cbn; tauto|]. split; [cbn; tauto|]. split; [exact Ea|]. cbn. split; [exact I|]. split; [|exact I].
+    now apply rok_of.
+  - cbn. split; [exact I|]. split; [|exact I]. exact Hr.
+Qed.
+
+(* find_iter over the compiled pattern: sorted, non-overlapping, valid spans; and - as long as the
+   search does not give up - exactly the spans of the iteration over the reference search *)
+Theorem pattern_find_iter :
+  forall (re : list nat), valid_text re ->
+  forall (e : expr) (st : pst), parse re = POk (e, st) ->
+  condok true e -> kok true e ->
+  forall (p : prog) (ng : nat), regex_new (bs_of st) e = inr (RFancy p ng) ->
+  forall cs : list (list nat), valid_chars cs -> (N.of_nat (length (concat cs)) < usize_max)%N ->
+  forall max_st limit fuelv,
+  (forall pos f, vsearch cs p ng max_st limit fuelv pos f <> SErr EFuel) ->
+  forall n,
+  chain (concat cs) 0 (collect (concat cs) (vsearch cs p ng max_st limit fuelv) n m_init) /\
+  (no_err (collect (concat cs) (vsearch cs p ng max_st limit fuelv) n m_init) ->
+   spans (collect (concat cs) (vsearch cs p ng max_st limit fuelv) n m_init) =
+   spans (collect (concat cs) (rsearch cs e) n m_init)).
+Proof.
+  intros re Hv e st Hp Hc Hk p ng Hn cs W Hl max_st limit fuelv Hnf n.
+  destruct (pattern_vm_scope re e st p ng cs Hv Hp Hc Hk Hn W Hl) as (_ & _ & Ec & Ho & Hr & _).
+  split.
+  - eapply vm_find_iter_chain; eauto.
+  - intros Hne. eapply vm_find_iter_is_reference; eauto. apply bst_init.
+Qed.
